@@ -34,9 +34,6 @@ Fixpoint insert_all {A} (x : A) (l : list A) : list (list A) :=
 Fixpoint perms {A} (l : list A) : list (list A) :=
   match l with [] => [[]] | x :: r => flat_map (insert_all x) (perms r) end.
 
-Fixpoint has_dup_z (l : list Z) : bool :=
-  match l with [] => false | x :: r => existsb (Z.eqb x) r || has_dup_z r end.
-
 (* ------------------------------------------------------------------ decoding of cases *)
 Definition dec_fields (j : J) : option cstate :=
   match j with
@@ -178,7 +175,9 @@ Definition ref_latest_ok (enabled : bool) (pid : bytes) (cur : list bytes) (o : 
 Definition sorted_readdir (d : dir) : list name := bsort (dir_names d).
 
 Definition check_rt (jf jt out : J) : verdict :=
-  match dec_fields jf, dec_table jt, dec_obs out with
+  match out with
+  | JL [jo; jimg] =>
+  match dec_fields jf, dec_table jt, dec_obs jo with
   | Some s, Some tab, Some o =>
       match tab_find tab (meta_str s), tab_find tab (ref_meta s) with
       | Some _, Some dg =>
@@ -189,6 +188,16 @@ Definition check_rt (jf jt out : J) : verdict :=
                    | Err e => Err e
                    | Abort => Abort
                    end in
+          (* the file the real save wrote is, byte for byte, the model's encoding *)
+          let image_ok := match r, jimg with
+                          | Ok n, JY img => match dir_lookup d n with
+                                            | Some b => bytes_eqb b img
+                                            | None => false
+                                            end
+                          | Ok _, _ => false
+                          | _, JN => true
+                          | _, _ => false
+                          end in
           let sealed := bytes_eqb (checksum s) (ref_hex dg) in
           let creatable := ref_creatable (ref_name (pipeline_id s) (timestamp s)) in
           let prop := match o with
@@ -198,10 +207,12 @@ Definition check_rt (jf jt out : J) : verdict :=
                                   else false
                       | OCrash => false
                       end in
-          ok_verdict (agree_load o m) prop
+          ok_verdict (agree_load o m && image_ok) prop
       | _, _ => malformed
       end
   | _, _, _ => malformed
+  end
+  | _ => malformed
   end.
 
 Definition check_load (jb jt out : J) : verdict :=
